@@ -90,7 +90,7 @@ def emit_one(g, gi, runtime_ctor):
     tail = ', use_lexer<vt::QuietLexer<&spec>>{}' if custom else ''
     decl = 'parser p(n%d, terms(%s), nterms(%s), rules(\n  %s\n)%s);' % (g.root, ', '.join(tref), ', '.join('n%d' % i for i in range(len(g.nts))), ',\n  '.join(rules), tail)
     o.append('inline auto make() { ' + decl + ' return p; }')     # a fresh parser object built at run time by the calling thread
-    if runtime_ctor: o.append('inline const auto& get() { static const ' + decl + ' return p; }')
+    if runtime_ctor: o.append('inline const auto& get() { static const auto* q = new ' + decl.replace('parser p(', 'parser(', 1).rstrip(';') + '; return *q; }')
     else:
         o.append('constexpr ' + decl); o.append('inline const auto& get() { return p; }')
     o.append('constexpr bool is_ctx = %s;' % ('true' if is_ctx else 'false'))
@@ -226,7 +226,7 @@ def _worker(spec):
         with os.fdopen(fd, 'w') as f: f.write('\n'.join(lines) + '\n')
         for nthreads in spec['threads']:
             env = {'TSAN_OPTIONS': 'halt_on_error=0:report_signal_unsafe=0:log_path=%s/tsan:second_deadlock_stack=1' % logdir}
-            rc, so, se, to = common.run(exe, [path, str(nthreads), str(spec['iters']), str(spec['seed'] + nthreads)], timeout=1200, env=env)
+            rc, so, se, to = common.run(exe, [path, str(nthreads), str(spec['iters']), str(spec['seed'] + nthreads)], timeout=1200, env=env, big_stack=False)
             text = so.decode('latin-1')
             reports = []
             for f in glob.glob(logdir + '/tsan*'):
